@@ -164,7 +164,17 @@ def plan(pid, tier, seed):
     elif pid == "C11":
         mc("MC_Seq", "MC_C11_q.cfg" if q else "MC_C11_t.cfg", 1200 if q else 12000, add_dumps)
         histories(60 if q else 600, 40 if q else 150, dict(flush=0.4, sync_wait=1.0, dump=0.6, reopen=0.1, big=True))
-        P["need"] = dict(dumps=100)
+
+        # the name <-> offset codec over the whole u64 range: final images shifted to large base offsets
+        def g():
+            out = []
+            for k in range(12 if q else 60):
+                cfg = gen.cfg_choices(rng)
+                st = gen.random_history(rng, rng.choice([3, 6, 10]), cfg, dict(flush=0.4, sync_wait=1.0, final_reopen=False))
+                out.append(dict(mode="free", tag="image:codec", steps=st, probes={"codec": {"n": 8, "all": not q}}))
+            return out
+        P["gen"].append(g)
+        P["need"] = dict(dumps=100, probes=60)
     elif pid == "C16":
         mc("MC_Seq", "MC_C01_q.cfg" if q else "MC_C01_t.cfg", 300 if q else 3000, add_reads)
 
